@@ -252,10 +252,37 @@ def gen_filter_spec(rng, allow_none=True):
     return {"names": names, "form": form}
 
 
+CUSTOM_FILTERS = ["custom_keep_last", "custom_machine0", "custom_latest_start"]
+
+
+def custom_filter(name):
+    """User-written filters (plain callables), defined on public attributes only;
+    the reference model mirrors them in Ref.f_custom_*."""
+    if name == "custom_keep_last":
+        return lambda dispatcher, operations: operations[-1:]
+    if name == "custom_machine0":
+        def machine0(dispatcher, operations):
+            keep = [op for op in operations if 0 in op.machines]
+            return keep or operations
+        return machine0
+    if name == "custom_latest_start":
+        def latest(dispatcher, operations):
+            if not operations:
+                return operations
+            best = max(dispatcher.earliest_start_time(op) for op in operations)
+            return [op for op in operations if dispatcher.earliest_start_time(op) == best]
+        return latest
+    raise ValueError(name)
+
+
 def make_filter(spec):
     """Builds the real filter callable for a spec."""
     if spec is None:
         return None
+    if spec["names"][0].startswith("custom_"):
+        from job_shop_lib.dispatching import create_composite_operation_filter
+        fs = [custom_filter(n) if n.startswith("custom_") else n for n in spec["names"]]
+        return fs[0] if len(fs) == 1 else create_composite_operation_filter(fs)
     from job_shop_lib.dispatching import (
         ReadyOperationsFilterType,
         create_composite_operation_filter,
